@@ -433,6 +433,68 @@ def r14_8(run, model):
            witness="let x: float64 = 18990.203130737194f64; whole-program Go has 18990.203130737194, build + link gives 18990.20313073719 (another float64)")
 
 
+def r14_17(run, model):
+    run.rule("R14.17", "every source file of a directory becomes part of the package in the whole-program loader, as it does for check and "
+                       "build (which take the files they are given): in load_package each turn of the loop over the directory listing "
+                       "adds a file to the package's file list or leaves the function with an error - no path skips a file (its imports "
+                       "and declarations would exist in one pipeline only)")
+    PK = "crates/compiler/src/pipeline/packages.rs"
+    f = model.fn("load_package", PK)
+    loops = [l for l in S.find(f.body, "For") if any(True for _ in S.calls(l["iter"], "read_gom_sources"))]
+    if len(loops) != 1:
+        raise AnalysisIncomplete(f"load_package: {len(loops)} loops over read_gom_sources found")
+    loop = loops[0]
+    sinks = {l["pat"]["name"] for l in S.find(f.body, "Local") if l["pat"]["k"] == "PIdent" and l.get("init") is not None and
+             S.norm_ws(run.facts.text(PK, l["init"]["sp"])) in ("Vec::new()", "vec![]")}
+    bad = []
+
+    def adds(node):
+        return node["k"] == "MethodCall" and node["method"] in ("push", "extend", "insert") and node["recv"]["k"] == "Path" and node["recv"]["segs"][0] in sinks
+
+    def ev(node, states):
+        if node is None or not states:
+            return states
+        k = node["k"]
+        if k == "Block":
+            for st in node["stmts"]:
+                states = ev(st, states)
+            return states
+        if k == "If":
+            states = ev(node["cond"], states)
+            return ev(node["then"], states) | (ev(node["else"], states) if node.get("else") is not None else states)
+        if k == "Match":
+            states = ev(node["scrut"], states)
+            out = set()
+            for arm in node["arms"]:
+                out |= ev(arm["body"], states)
+            return out
+        if k == "Return":
+            return set()
+        if k == "Continue":
+            if False in states:
+                bad.append(node)
+            return set()
+        if k == "Closure":
+            return states
+        if k == "MethodCall" and adds(node):
+            return {True}
+        for v in node.values():
+            if isinstance(v, dict) and "k" in v:
+                states = ev(v, states)
+            elif isinstance(v, list):
+                for x in v:
+                    if isinstance(x, dict) and "k" in x:
+                        states = ev(x, states)
+        return states
+    end = ev(loop["body"], {False})
+    if False in end:
+        bad.append(loop["body"])
+    run.ob("R14.17", "load_package|every listed file is added to the package or reported", not bad, site(PK, (bad or [loop])[0]["sp"]),
+           f"file lists: {sorted(sinks)}; paths through the loop body that add nothing: {len(bad)}",
+           witness="a non-entry file holding only `package Main` and `import DataPkg`: build takes the import from it, the whole-program loader "
+                   "drops the file; `No instance found for trait TraitPkg::Show<DataPkg::Item>` in one pipeline only")
+
+
 def run(run, model):
     run.try_rule(r14_8, model)
     run.try_rule(r14_10, model)
@@ -443,8 +505,10 @@ def run(run, model):
         cx = c13.Ctx(run, model)
         run.try_rule(c13.r13_5, cx)
         run.try_rule(c13.r13_2, cx)
+        # check and build emit the same interface only if serialising it twice gives the same bytes (shared with C13 R13.4)
+        run.try_rule(c13.r13_4, cx)
     except AnalysisIncomplete as e:
-        run.skipped("R14.6", str(e))
+        run.skipped.append({"rule_fn": "c13 shared rules", "reason": str(e)})
     from rules import c15
     from lib.mir import Mir
     run.rule("R14.9", "what build writes is what link reads: no field of a type reachable from the artifacts is hidden from serde (shared with C15 R15.1)")
@@ -458,6 +522,7 @@ def run(run, model):
     run.try_rule(canonical_link_order, model)
     run.try_rule(r14_12, model)
     run.try_rule(r14_14, model)
+    run.try_rule(r14_17, model)
     run.try_rule(r14_15, model)
     run.try_rule(r14_16, model)
     run.try_rule(r14_2, model)
